@@ -120,6 +120,12 @@ def run(chk, tier):
         g = progen.ProgGen(((chk.seed + 23) % 1000003) * 100003 + i, emph=("store",))
         g.feat |= {"arr", "rec", "fun", "un"}
         wide.append(g.program("ws%d" % i))
+    # ... and programs whose local SingleInteger variables are held as Pointer (copies through `pretend` casts: a rendering
+    # option, the same program for AldorSem); straight-line and loop code in functions, where copy propagation works
+    for p in progen.generate((chk.seed + 31) % 1000003, 30 if tier == "quick" else 300, features=["fun", "while", "for", "bi", "exit"]):
+        q = progen.hold_as_pointer(p)
+        if q:
+            wide.append(q)
     # ... and programs with collect forms over generators (inlining of generator functions into the gathering loop)
     wide += progen.generator_collect_family((chk.seed + 29) % 1000003, 10 if tier == "quick" else 150)
     # ... and programs whose functions compute an expression on a path that may not run and again after the join
